@@ -132,7 +132,7 @@ pub fn c10_ops(c: &mut Ctx, a: W, b: W, f: f64) {
 }
 
 pub fn c10_sum(c: &mut Ctx) {
-    let len = c.rng.range(0, 24) as usize;
+    let len = if c.rng.chance(1, 6) { c.rng.range(250, 1100) } else { c.rng.range(0, 24) } as usize;
     let v: Vec<W> = (0..len).map(|_| tf_in_or_zero(&mut c.rng, -200, 200)).collect();
     let tfs: Vec<TwoFloat> = v.iter().map(|&x| t(x)).collect();
     let fs: Vec<f64> = v.iter().map(|x| x.0).collect();
